@@ -204,3 +204,17 @@ Proof.
   destruct r; try (intros H; inversion H; subst; left; eapply sub_reg0_err; eauto; discriminate).
   intros H; inversion H; subst. right. split; [reflexivity|]. exists s0. split; reflexivity.
 Qed.
+
+(* Update's enqueue is a blocking send (repaired / original code); with a select/default the
+   model drops the event when the queue is full and the lemmas below fail *)
+Lemma upd_blocking_true : upd_blocking = true. Proof. reflexivity. Qed.
+Lemma upd_enq_spec p s s' : upd_enq p s = Some s' -> s' = enq p (set_calls s (rm1 (KUpd p) (calls s))).
+Proof.
+  unfold upd_enq, upd_enq_gen. rewrite upd_blocking_true. destruct (has (KUpd p) (calls s)); [|discriminate].
+  destruct (can_enq s); [|discriminate]. intros H; inversion H; reflexivity.
+Qed.
+Lemma upd_enq_enabled p s : has (KUpd p) (calls s) = true -> can_enq s = true ->
+  upd_enq p s = Some (enq p (set_calls s (rm1 (KUpd p) (calls s)))).
+Proof. intros H1 H2. unfold upd_enq, upd_enq_gen. rewrite H1, H2. reflexivity. Qed.
+Lemma upd_enq_blocked p s : can_enq s = false -> upd_enq p s = None.
+Proof. intros H. unfold upd_enq, upd_enq_gen. rewrite upd_blocking_true, H. destruct (has (KUpd p) (calls s)); reflexivity. Qed.
